@@ -13,6 +13,8 @@ for d in sorted(glob.glob(os.path.join(ROOT, 'seeded', '*'))):
     nf = os.path.join(d, 'notes.md')
     cr = m.get('check_result', {})
     verdict = {1: 'detected', 0: '**missed**', 2: 'engine error'}.get(cr.get('exit'), 'not run')
+    if m.get('obsolete_since'):
+        verdict = f"detected on the tree it was written for; obsolete since fix `{m['obsolete_since']}` (the edited line no longer exists)"
     first = (cr.get('first_violation') or '').strip().replace('|', '/')[:110]
     what = m.get('summary') or ''
     rows.append(f"| `{os.path.basename(d)}` | {m['property']} | {what} | {verdict} | {first} |")
